@@ -24,12 +24,12 @@ Theorem C01_call_fidelity : forall L : leaf_codec, leaf_sound L ->
   nth_error (s_methods Sv) i = Some m ->
   hdr_distinct (synth U0 Sv) (m_in_header m) = true ->
   hdr_distinct (synth U0 Sv) (m_out_header m) = true ->
-  args_conf L V U0 Sv fuel i m args = true ->
+  args_conf L U0 Sv fuel i m args = true ->
   hdrs_conf L U0 Sv fuel (m_in_header m) hv = true ->
   (V = ValLxml -> forall e, enc L (synth U0 Sv) fuel (fst (req_ty U0 i m)) (s_tns Sv) (m_name m) (req_value U0 i m args) = Ok e ->
                   schema_valid (wire e) = true) ->
   f (m_name m) (seen_header P U0 Sv fuel (m_in_header m) hv) (seen_args U0 Sv fuel i m args) = (ret, oh) ->
-  ret_conf L V U0 Sv fuel i m ret = true ->
+  ret_conf L U0 Sv fuel i m ret = true ->
   hdrs_conf L U0 Sv fuel (m_out_header m) oh = true ->
   exists req resp,
     client_request L P U0 Sv fuel i m hv args = Ok req
@@ -49,12 +49,12 @@ Theorem C01_call_fidelity_spyne :
   nth_error (s_methods Sv) i = Some m ->
   hdr_distinct (synth U0 Sv) (m_in_header m) = true ->
   hdr_distinct (synth U0 Sv) (m_out_header m) = true ->
-  args_conf spyne_leaf V U0 Sv fuel i m args = true ->
+  args_conf spyne_leaf U0 Sv fuel i m args = true ->
   hdrs_conf spyne_leaf U0 Sv fuel (m_in_header m) hv = true ->
   (V = ValLxml -> forall e, enc spyne_leaf (synth U0 Sv) fuel (fst (req_ty U0 i m)) (s_tns Sv) (m_name m) (req_value U0 i m args) = Ok e ->
                   schema_valid (wire e) = true) ->
   f (m_name m) (seen_header P U0 Sv fuel (m_in_header m) hv) (seen_args U0 Sv fuel i m args) = (ret, oh) ->
-  ret_conf spyne_leaf V U0 Sv fuel i m ret = true ->
+  ret_conf spyne_leaf U0 Sv fuel i m ret = true ->
   hdrs_conf spyne_leaf U0 Sv fuel (m_out_header m) oh = true ->
   exists req resp,
     client_request spyne_leaf P U0 Sv fuel i m hv args = Ok req
@@ -94,9 +94,9 @@ Example C01_ex_call :
   wf_universe (synth ex_U0 ex_Sv) = true
   /\ nodup_text (map m_name (s_methods ex_Sv)) = true
   /\ hdr_distinct (synth ex_U0 ex_Sv) (m_in_header ex_m) = true
-  /\ args_conf spyne_leaf ValSoft ex_U0 ex_Sv 8 0 ex_m ex_args = true
+  /\ args_conf spyne_leaf ex_U0 ex_Sv 8 0 ex_m ex_args = true
   /\ hdrs_conf spyne_leaf ex_U0 ex_Sv 8 (m_in_header ex_m) ex_hv = true
-  /\ ret_conf spyne_leaf ValSoft ex_U0 ex_Sv 8 0 ex_m ex_ret = true
+  /\ ret_conf spyne_leaf ex_U0 ex_Sv 8 0 ex_m ex_ret = true
   /\ seen_args ex_U0 ex_Sv 8 0 ex_m ex_args = [VNone; VNone]
   /\ match client_request spyne_leaf PSoap12 ex_U0 ex_Sv 8 0 ex_m ex_hv ex_args with
      | Ok req =>
